@@ -29,4 +29,27 @@ def assemblePassword (L T : Nat) (pass tail : Bytes) : Bytes :=
     let part := cstr (tail.take T)
     if 0 < T ∧ part.length ≤ T - 1 then p ++ part else p
 
+/-- strnlen(b, n) -/
+def strnlen (b : Bytes) (n : Nat) : Nat := (cstr (b.take n)).length
+
+/-- memcpy of `data` to offset `off` of `dst` -/
+def poke (dst : Bytes) (off : Nat) (data : Bytes) : Bytes := dst.take off ++ data ++ dst.drop (off + data.length)
+
+/-- supla_esp_recv_callback, "the form left the password empty: keep the stored one", for a stored long password: the
+    overflow part behind the old e-mail's terminator is copied behind the new e-mail's terminator (cut to what fits; if
+    there is no room for a terminated e-mail at all the password is cut to its field).  `L`, `E`: sizes of the Password
+    and Email fields.  Returns the new Password and Email fields (a byte the C writes past the Email field when the part
+    is cut lands in the padding behind it and is not part of either field). -/
+def keepLongPassword (L E : Nat) (oldPwd oldMail newMail : Bytes) : Bytes × Bytes :=
+  if strnlen oldPwd L = L then
+    if strnlen oldMail E < E ∧ strnlen newMail E < E then
+      let src := oldMail.drop (strnlen oldMail E + 1)
+      let part := strnlen src (E - strnlen oldMail E - 1)
+      if part < E - strnlen oldMail E - 1 then
+        let part' := if part ≥ E - strnlen newMail E - 1 then E - strnlen newMail E - 1 else part
+        (oldPwd, (poke newMail (strnlen newMail E + 1) (src.take (part' + 1))).take E)
+      else (oldPwd, newMail)
+    else (oldPwd.take (L - 1) ++ [0], newMail)
+  else (oldPwd, newMail)
+
 end SuplaVerif
